@@ -47,6 +47,8 @@ def _ew(f, defined=None):
     def h(x, *a, **k):
         k.pop("dtype", None)
         k.pop("out", None)
+        if hasattr(x, "__nss_apply__"):
+            return x.__nss_apply__(lambda e: f(num(e)))
         if isinstance(x, A):
             if defined is not None:
                 Hooks.defined(defined(num(x.e)), f.__name__, x.dom)
